@@ -133,6 +133,7 @@ class Node:
         self.pvar = None
         self.via: List[tuple] = []
         self.fragcond = False
+        self.entries: List[tuple] = []
         ctx.nodes.append(self)
 
     # kind predicates
@@ -240,6 +241,7 @@ def collect(ctx: Ctx, rt: GraphQLObjectType, sels, out=None):
 
 def build(ctx: Ctx, typ, entries, path, live) -> Node:
     node = Node(ctx, path, typ, live)
+    node.entries = entries
     t = typ.of_type if isinstance(typ, GraphQLNonNull) else typ
     if isinstance(t, GraphQLList):
         node.llen = ctx.fresh("len")
@@ -473,6 +475,60 @@ class Pyd:
                 p, sub = ent
                 alts.append(z3.And(g, p, sub.str_in(lits), self.acc_fields(ci, view)))
         return z3.And(node.is_obj(), Or(alts))
+
+    # ---------------- which class does pydantic use for which object node (guarded)
+    def pairs(self, ann, node, mod, disc=None, guard=None, out=None, depth=0):
+        out = [] if out is None else out
+        guard = T(True) if guard is None else guard
+        if depth > 12:
+            return out
+        ann = self.norm(ann)
+        if isinstance(ann, ast.Subscript):
+            head = ast.unparse(ann.value)
+            if head == "Optional":
+                return self.pairs(ann.slice, node, mod, disc, guard, out, depth)
+            if head == "List":
+                if node.elems is not None:
+                    for i, e in enumerate(node.elems):
+                        self.pairs(ann.slice, e, mod, None, z3.And(guard, node.is_list(), i < node.llen), out, depth + 1)
+                return out
+            if head == "Annotated":
+                inner, metas = self.elts(ann.slice)[0], self.elts(ann.slice)[1:]
+                d = None
+                for meta in metas:
+                    if isinstance(meta, ast.Call) and ast.unparse(meta.func) == "Field":
+                        for kw in meta.keywords:
+                            if kw.arg == "discriminator":
+                                d = ast.literal_eval(kw.value)
+                return self.pairs(inner, node, mod, d or disc, guard, out, depth)
+            if head == "Union" and disc and node.variants is not None:
+                members = [self.norm(m) for m in self.elts(ann.slice)]
+                for g, view, vi in self.views(node):
+                    for ci, lits, f in self.union_members(members, mod, disc):
+                        ent = view.get(f.key)
+                        if ent is None:
+                            continue
+                        p, sub = ent
+                        g2 = z3.And(guard, node.is_obj(), g, p, sub.str_in(lits))
+                        out.append((g2, ci, node))
+                        self._pairs_fields(ci, view, g2, out, depth)
+                return out
+            return out
+        if isinstance(ann, ast.Name):
+            ci = self.pkg.resolve(mod, ann.id)
+            if ci is not None and not ci.is_enum and node.variants is not None:
+                out.append((z3.And(guard, node.is_obj()), ci, node))
+                for g, view, vi in self.views(node):
+                    self._pairs_fields(ci, view, z3.And(guard, node.is_obj(), g), out, depth)
+        return out
+
+    def _pairs_fields(self, ci, view, guard, out, depth):
+        for f in self.pkg.all_fields(ci).values():
+            ent = view.get(f.key)
+            if ent is None:
+                continue
+            p, sub = ent
+            self.pairs(f.ann, sub, ci.module, f.discriminator, z3.And(guard, p), out, depth + 1)
 
     # ---------------- faithfulness (assumes Conf and Acc): exposure by python name, typename class, dump by alias
     def faith(self, ann, node, mod, disc=None):
